@@ -18,6 +18,8 @@ Not modelled: the deprecated periodic-boundary branch (`periodic_face_map`), the
 `Aavatsmark_transmissibilities` (needs norms), IEEE corner cases of a vanishing half
 transmissibility other than `1/0 = inf, 1/inf = 0` (flagged by `degenerate`).
 -/
+import PorepyVerif.C11.Model
+
 namespace PorepyVerif.C12
 
 /-- a vector with three rational components -/
@@ -230,5 +232,81 @@ def faceOK (g : Grid) (f : Nat) : Bool :=
 
 def WellFormed (g : Grid) : Prop :=
   (∀ f, f < g.nf → faceOK g f = true) ∧ (∀ h ∈ g.hf, h.face < g.nf)
+
+/-! ### TPFA on the 2-D grid structure of the C11 MPFA model (`PorepyVerif.C11.Grid2`)
+
+`ofGrid2` turns a C11 grid (2-vectors as lists, `face_cells` per face, one Dirichlet flag per face; a
+boundary face that is not Dirichlet is Neumann) into the input of the TPFA model above, so that the two
+discretisations can be compared on the same grid (`tpfa_eq_mpfa_Korth`).  `KorthOK` is the decidable
+K-orthogonality condition under which they coincide. -/
+section OnGrid2
+open PorepyVerif.C11
+
+/-- a planar vector as a 3-vector -/
+def v3 : Vec → V3
+  | [a, b] => ⟨a, b, 0⟩
+  | _ => ⟨0, 0, 0⟩
+
+/-- a 2x2 tensor as a 3x3 tensor (`SecondOrderTensor` fills `kzz = 1`) -/
+def m3 : Mat → M3
+  | [[a, b], [c, d]] => ⟨⟨a, b, 0⟩, ⟨c, d, 0⟩, ⟨0, 0, 1⟩⟩
+  | _ => ⟨⟨0, 0, 0⟩, ⟨0, 0, 0⟩, ⟨0, 0, 0⟩⟩
+
+def ofGrid2 (G : Grid2) : Grid where
+  nf := G.numFaces
+  nc := G.numCells
+  hf := (List.range G.numFaces).flatMap (fun f => (G.fcells f).map (fun cs => ⟨f, cs.1, cs.2⟩))
+  normal := fun f => v3 (G.fnAt f)
+  fc := fun f => v3 (G.fcAt f)
+  cc := fun c => v3 (G.ccAt c)
+  perm := fun c => m3 (G.permAt c)
+  bndr := (List.range G.numFaces).filter G.isBoundary
+  isDir := fun f => G.dirAt f && G.isBoundary f
+  isNeu := fun f => !G.dirAt f && G.isBoundary f
+  isInt := fun _ => false
+
+/-- face centre minus cell centre -/
+def dvec2 (G : Grid2) (f c : Nat) : Vec := vsub (G.fcAt f) (G.ccAt c)
+
+/-- the half transmissibility `(d . K (s n)) / (d . d)` in list form -/
+def th2 (G : Grid2) (f c : Nat) (s : Rat) : Rat :=
+  dot (dvec2 G f c) (mulVec (G.permAt c) (smul s (G.fnAt f))) / dot (dvec2 G f c) (dvec2 G f c)
+
+/-- K-orthogonality of the half-face `(f, c, s)`: `n_fᵀ K_c = s t_half dᵀ`, i.e. the co-normal is parallel
+    to the vector from the cell centre to the face centre, with the half transmissibility as factor -/
+def korthAt (G : Grid2) (f c : Nat) (s : Rat) : Bool :=
+  vecMat 2 (G.fnAt f) (G.permAt c) == smul (s * th2 G f c s) (dvec2 G f c)
+
+def faceKorth (G : Grid2) (f : Nat) : Bool :=
+  match G.fcells f with
+  | [(c, s)] => (s == 1 || s == -1) && th2 G f c s != 0 && korthAt G f c s
+  | [(c1, s1), (c2, s2)] =>
+      (s1 == 1 || s1 == -1) && s2 == -s1 && th2 G f c1 s1 != 0 && th2 G f c2 s2 != 0
+      && th2 G f c1 s1 + th2 G f c2 s2 != 0 && korthAt G f c1 s1 && korthAt G f c2 s2
+  | _ => false
+
+def det2 : Vec → Vec → Rat
+  | [a, b], [c, d] => a * d - b * c
+  | _, _ => 0
+
+/-- the faces of cell `c` that meet at node `v` -/
+def cfaces (G : Grid2) (v c : Nat) : List Nat :=
+  (G.facesOf v).filter (fun f => (G.fcells f).any (fun cs => cs.1 == c))
+
+/-- at the corner `v` of cell `c` exactly two faces of the cell meet, and the vectors from the cell centre
+    to their centres are linearly independent -/
+def cornerOK (G : Grid2) (v c : Nat) : Bool :=
+  match cfaces G v c with
+  | [f1, f2] => det2 (dvec2 G f1 c) (dvec2 G f2 c) != 0
+  | _ => false
+
+/-- decidable K-orthogonality of a 2-D grid: continuity points at the face centres (`η = 0`), every
+    half-face K-orthogonal with a non-vanishing half transmissibility, orientations ±1 and opposite on the
+    two sides of an interior face, non-degenerate corners -/
+def KorthOK (G : Grid2) : Bool :=
+  G.eta == 0 && (List.range G.numFaces).all (faceKorth G)
+  && (List.range G.numNodes).all (fun v => (G.cellsOf v).all (cornerOK G v))
+
+end OnGrid2
 
 end PorepyVerif.C12
